@@ -20,7 +20,7 @@ def _trim(rec, keep_calls=2):
     return r
 
 
-def selftest_corrupt(module, trace_path, corrupt, expect_tag="MISMATCH"):
+def selftest_corrupt(module, trace_path, corrupt, expect_tag="MISMATCH", boundary=None):
     """Binding self-test: corrupt one recorded field and require that TLC rejects exactly that record."""
     with open(trace_path) as f:
         lines = [l for l in f if l.strip()]
@@ -38,7 +38,7 @@ def selftest_corrupt(module, trace_path, corrupt, expect_tag="MISMATCH"):
     p = os.path.join(WORK, "selftest_%s.ndjson" % module)
     with open(p, "w") as f:
         f.writelines(lines2)
-    tr = tlc_trace(module, p)
+    tr = tlc_trace(module, p, boundary=boundary)
     hit = [t for (gl, t) in tr["tuples"] if t[0] == expect_tag and gl == i + 1]
     other = [t for (gl, t) in tr["tuples"] if t[0] == expect_tag and gl != i + 1]
     log("selftest %s: corrupted record %d -> %d hits on it, %d elsewhere" % (module, i + 1, len(hit), len(other)))
@@ -143,3 +143,94 @@ def _c05_mc(prop, tier, res):
 @register("C05")
 def check_c05(prop, tier, replay, selftest):
     return check_sem(prop, tier, replay, selftest, mc=_c05_mc)
+
+
+# ------------------------------------------------------------------ C06 C07 C13 (store level, shared harness subcommand)
+BDD_RULE = ("records = operations on real Bdd objects (fresh stores, stores of natively compiled and bridge-imported ADFs with "
+            "semantics calls in between, stores continued after serde import / rebuild); the complete node table and the memo tables "
+            "(hook H1) are logged after every operation; distinct = distinct (operation, operands, resulting table); non-trivial = the "
+            "operation appended at least one node")
+
+
+def _bdd_mc(prop, tier, res):
+    res.add_mc(require_mc(tlc_mc("Robdd", "Robdd_nv2.cfg", workers=12, timeout=900)))
+    if tier == "thorough":
+        for cfg in ("Robdd_nv2_novl.cfg", "Robdd_nv2_models.cfg", "Robdd_nv2_nocount.cfg", "Robdd_nv3.cfg"):
+            res.add_mc(require_mc(tlc_mc("Robdd", cfg, workers=12, timeout=3000)))
+
+
+def bdd_records(binary, tier, tag):
+    out = os.path.join(WORK, "bdd_%s.ndjson" % tag)
+    os.makedirs(WORK, exist_ok=True)
+    run_harness(binary, ["bdd", "--tier", tier, "--out", out])
+    return out
+
+
+def is_reset(line):
+    return '"kind":"reset"' in line
+
+
+@register("C06", "C07", "C13")
+def check_bdd(prop, tier, replay, selftest):
+    res = Result(prop, tier)
+    binary = build_harness()
+    out = bdd_records(binary, tier, prop)
+    if selftest:
+        def corrupt(rec):
+            if rec.get("kind") != "op" or rec["op"] == "var":
+                return None
+            rec["r"] = (rec["r"] + 1) % len(rec["nodes"])
+            return rec
+        ok = selftest_corrupt("Trace_Bdd", out, corrupt, boundary=is_reset)
+        print("SELFTEST %s: %s" % (prop, "binding demonstrated" if ok else "FAILED"))
+        return 0 if ok else 2
+    _bdd_mc(prop, tier, res)
+    tr = tlc_trace("Trace_Bdd", out, boundary=is_reset)
+    res.add_trace(tr)
+    _bdd_collect(prop, res, tr)
+    return res.finish()
+
+
+def _bdd_collect(prop, res, tr, props=None):
+    props = props or {prop}
+    prevlen = 0
+    seen = set()
+    nops = 0
+    for line in tr["lines"]:
+        r = json.loads(line)
+        k = r.get("kind")
+        if k == "reset":
+            prevlen = len(r["nodes"])
+        elif k in ("op", "opaque", "persist"):
+            nops += 1
+            if len(r["nodes"]) > prevlen:
+                seen.add(hashlib.sha1(json.dumps([r.get("op"), r.get("a"), r.get("b"), r.get("v"), r.get("val"), r["nodes"]]).encode()).hexdigest())
+            prevlen = len(r["nodes"])
+        elif k == "query":
+            nops += 1
+            if r["h"] > 1:
+                seen.add(hashlib.sha1(json.dumps([r["h"], r["nodes"]]).encode()).hexdigest())
+    for gl, t in tr["tuples"]:
+        if gl is None:
+            continue
+        if t[0] == "MISMATCH" and t[3] in props:
+            rec = json.loads(tr["lines"][gl - 1])
+            # the replay file carries the whole sequence up to the failing record
+            j = gl - 1
+            while j > 0 and not is_reset(tr["lines"][j]):
+                j -= 1
+            seq = [json.loads(x) for x in tr["lines"][j:gl]]
+            slim = [{k: v for k, v in s.items() if k not in ("dump",)} for s in seq[:-1]] + [seq[-1]]
+            res.violation("%s_%s" % (rec["id"], t[4]), {"property": prop, "component": "bdd", "sequence": slim, "mismatch": t},
+                          "%s: predicate %s false on record %s" % (t[3], t[4], rec["id"]))
+        elif t[0] == "DRIFT":
+            res.drift.append({"record": t[2], "op": t[3]})
+    res.evaluations = nops
+    res.distinct = seen
+    res.rule = BDD_RULE
+    res.extra["drift_count"] = len(res.drift)
+    res.extra["model_level_conformance"] = "model stepped from the real pre-state predicts the real post-state (handles, node order, all memo entries) on every op record without drift" if not res.drift else "drift observed: step-level conformance lost, verdicts are I/O level only"
+    ops = [json.loads(l) for l in tr["lines"][:400] if '"kind":"op"' in l]
+    res.samples = [{k: v for k, v in o.items() if k != "dump"} for o in ops[20:23]] or [{"note": "no op records"}]
+    res.assumptions = ["TLC evaluates RobddOps correctly", "the harness logs the real node table and (hook H1) the real memo tables (binding self-test: --selftest)",
+                       "variables 0..nv-1 with nv <= 5 on the code side; NV = 2 closed state graph (any history) and NV = 3 bounded on the model side"]
